@@ -677,8 +677,11 @@ func init() {
 		runSubScenario(c, "c07-plain-close-error",
 			"a listener whose ReadFrom fails with a plain (non net.Error) error once Shutdown has closed it",
 			"once Shutdown has been requested every running Serve call returns ErrServerShutdown")
+		runSubScenario(c, "c07-serve-ended-on-read-error",
+			"a handler waits for its request context, the only Serve call ends on a permanent read error, then Shutdown",
+			"Shutdown cancels the request contexts and returns nil only after every started handler has finished, also when no listener is registered any more")
 		c.Trivial("no-shutdown")
 		c.Flush()
-		c.RequireTags("with-shutdown", "directed", "shutdown-in-register-window", "c07-received-before-shutdown", "c07-shared-listener", "c07-plain-close-error")
+		c.RequireTags("with-shutdown", "directed", "shutdown-in-register-window", "c07-received-before-shutdown", "c07-shared-listener", "c07-plain-close-error", "c07-serve-ended-on-read-error")
 	}
 }
